@@ -358,6 +358,16 @@ def check_collections(res, N, exons, strand, a, b):
     cmp(res, "AnnotationCollection.bounds", case, lib.outcome(lambda: (ac.start, ac.end)), (a, b), "chunk-ac-bounds")
     cmp(res, "AnnotationCollection.members", case, lib.outcome(lambda: [(c.start, c.end) for c in ac.iter_children()]), [(lo, hi), (lo, hi)], "chunk-ac-members")
     cmp(res, "AnnotationCollection.sequence", case, lib.outcome(lambda: str(ac.get_reference_sequence())), genome[a:b], "chunk-ac-sequence")
+    # explicit bounds are kept as given - also bounds that START AT 0 - whatever window the chunk parent covers
+    for bs, be in ((0, N), (0, max(hi, 1)), (lo, hi)):
+        g2, fc2 = build(chunk)
+        o = lib.outcome(lambda: AnnotationCollection(feature_collections=[fc2], genes=[g2], sequence_name="chrV", start=bs, end=be, parent_or_seq_chunk_parent=chunk))
+        res.trans()
+        if o[0] != "ok":
+            if not lib.is_documented_exc(o[2]):
+                res.deviation("AnnotationCollection", dict(op="AnnotationCollection-explicit-bounds", bounds=[bs, be], **case), o[1], "object or documented refusal", sig="chunk-ac-explicit-internal")
+            continue
+        cmp(res, "AnnotationCollection.explicit-bounds", dict(bounds=[bs, be], **case), lib.outcome(lambda: (o[1].start, o[1].end)), (bs, be), "chunk-ac-explicit-bounds")
 
 
 def _check_shared_children(res, case, genome, exons, strand, cb, frames, first, a, b, chrom, chunk):
